@@ -23,6 +23,8 @@ RULE = ("(a) in-process differential, the recorder posing as each supported back
         "one registered for runtime.backend_name and that a backend without registered parameters makes the import raise "
         "instead of using the toy set. Non-trivial = length >= 1 and a value >= 2^128 (a); every selection case (b); "
         "distinct by case digest.")
+RULE += " Extensions (seeded rounds 10-15): messages of 256 / 257 (thorough: up to 1000) elements, a reduced-rounds parameter table registered by the program, refused hash calls in the history, digests hashed again."
+
 
 CONFIG_MODULE = {"zkinterface": "pysnark.zkinterface.backend", "zkifbellman": "pysnark.zkinterface.backendbellman",
                  "zkifbulletproofs": "pysnark.zkinterface.backendbulletproofs"}
